@@ -14,6 +14,7 @@ discharged, never by a blanket suppression.
 from __future__ import annotations
 
 import ast
+import re
 import json
 import os
 from typing import Optional
@@ -215,10 +216,27 @@ class Escape:
 
     def suppressed(self, fr: FuncRef, st: ast.AST, cls: str) -> Optional[dict]:
         text = norm(st)
+        alt = None
         for i, s in enumerate(self.suppressions):
-            if s.get("kind", "drop") == "drop" and s["in"] == fr.ref and s["exc"] in (cls, "*") and text.startswith(s["stmt"]):
-                self.used_suppressions.add(i)
-                return s
+            if s.get("kind", "drop") == "drop" and s["in"] == fr.ref and s["exc"] in (cls, "*"):
+                if "stmt_re" in s:
+                    # same statement up to the name of one local (named group-free regex over the normalised text)
+                    if re.match(s["stmt_re"], text):
+                        self.used_suppressions.add(i)
+                        return s
+                    continue
+                if text.startswith(s["stmt"]):
+                    self.used_suppressions.add(i)
+                    return s
+                if alt is None and isinstance(st, (ast.Assert, ast.Assign, ast.Expr, ast.Return, ast.AugAssign)):
+                    # the same statement written through a hoisted single-definition local (`ks = self.key_schedule`)
+                    try:
+                        alt = norm(self.fn(fr)._expand(st, 3, set()))
+                    except Exception:
+                        alt = text
+                if alt and alt.startswith(s["stmt"]):
+                    self.used_suppressions.add(i)
+                    return s
         return None
 
     # ---- fixpoint ---------------------------------------------------------------
